@@ -307,6 +307,134 @@ pub fn explore(ctx: &LeafCtx, tier: &str, reps: &[&Report; 5]) {
         }
     }
 
+    // ---- spec-variant candidates: derived fields computed by a *different* recipe (field
+    // order swapped, single instead of double hash, wrong salt, duplicated component, shifted
+    // insertion). The spec says all of them must be rejected; a circuit that hashes in another
+    // order accepts exactly one of them.
+    for (bi, (name, base)) in bases.iter().enumerate() {
+        if base.is_dummy() {
+            continue;
+        }
+        let mut push = |label: String, a: LeafA| {
+            all_cases.push(Case { base: bi, edits: vec![], coherent: true, label: format!("{name}/variant:{label}"), a });
+        };
+        // header: every swap of two components and every duplication of one over another
+        let comps: Vec<Vec<u64>> = vec![
+            base.v[PARENT..PARENT + 4].to_vec(),
+            vec![base.v[BN]],
+            base.v[STATE..STATE + 4].to_vec(),
+            base.v[EXTR..EXTR + 4].to_vec(),
+            base.v[ZKROOT..ZKROOT + 4].to_vec(),
+            base.v[DIGEST..DIGEST + 28].to_vec(),
+        ];
+        for i in 0..6 {
+            for j in 0..6 {
+                if i == j {
+                    continue;
+                }
+                let mut c = comps.clone();
+                if i < j {
+                    c.swap(i, j);
+                    let mut a = base.clone();
+                    a.set4(BH, h(&c.concat()));
+                    push(format!("header-swap({i},{j})"), a);
+                }
+                let mut c = comps.clone();
+                c[i] = comps[j].clone();
+                let mut a = base.clone();
+                a.set4(BH, h(&c.concat()));
+                push(format!("header-dup({i}<-{j})"), a);
+            }
+        }
+        {
+            let mut a = base.clone();
+            let pre: Vec<u64> = comps.concat();
+            a.set4(BH, h(&h(&pre)));
+            push("header-double-hash".into(), a);
+            let mut a = base.clone();
+            a.set4(BH, h(&pre[..pre.len() - 28]));
+            push("header-without-digest".into(), a);
+        }
+        // nullifier / account recipes
+        let sec = base.v[SECN..SECN + 4].to_vec();
+        let tc = base.v[TCN..TCN + 2].to_vec();
+        let saltn: Vec<u64> = zk_circuits_common::utils::string_to_felts("~nullif~").unwrap().into_iter().map(crate::cx::u).collect();
+        let saltw: Vec<u64> = zk_circuits_common::utils::string_to_felts("wormhole").unwrap().into_iter().map(crate::cx::u).collect();
+        let nvars: Vec<(&str, [u64; 4])> = vec![
+            ("single-hash", h(&[saltn.clone(), sec.clone(), tc.clone()].concat())),
+            ("salt-last", h(&h(&[sec.clone(), tc.clone(), saltn.clone()].concat()))),
+            ("count-before-secret", h(&h(&[saltn.clone(), tc.clone(), sec.clone()].concat()))),
+            ("no-salt", h(&h(&[sec.clone(), tc.clone()].concat()))),
+            ("wrong-salt", h(&h(&[saltw.clone(), sec.clone(), tc.clone()].concat()))),
+            ("count-limbs-swapped", h(&h(&[saltn.clone(), sec.clone(), vec![tc[1], tc[0]]].concat()))),
+            ("without-count", h(&h(&[saltn.clone(), sec.clone()].concat()))),
+            ("triple-hash", h(&h(&h(&[saltn.clone(), sec.clone(), tc.clone()].concat())))),
+        ];
+        for (l, n) in nvars {
+            let mut a = base.clone();
+            a.set4(NULL, n);
+            push(format!("nullifier-{l}"), a);
+        }
+        let avars: Vec<(&str, [u64; 4])> = vec![
+            ("single-hash", h(&[saltw.clone(), sec.clone()].concat())),
+            ("salt-last", h(&h(&[sec.clone(), saltw.clone()].concat()))),
+            ("no-salt", h(&h(&sec))),
+            ("nullifier-salt", h(&h(&[saltn.clone(), sec.clone()].concat()))),
+        ];
+        for (l, acc) in avars {
+            let mut a = base.clone();
+            a.set4(ACC, acc);
+            a.set4(TO, acc);
+            a.recompute(&[ACC, TO, NULL]);
+            push(format!("account-{l}"), a);
+        }
+        // leaf-hash recipes (root re-derived from the variant leaf hash): express by editing
+        // the hashed fields so that the *spec* leaf hash differs from what is folded
+        let to = base.v[TO..TO + 4].to_vec();
+        let tcl = base.v[TCL..TCL + 2].to_vec();
+        let lvars: Vec<(&str, Vec<u64>)> = vec![
+            ("asset-input-swapped", [to.clone(), tcl.clone(), vec![base.v[INPUT], base.v[ASSET]]].concat()),
+            ("count-limbs-swapped", [to.clone(), vec![tcl[1], tcl[0]], vec![base.v[ASSET], base.v[INPUT]]].concat()),
+            ("count-first", [tcl.clone(), to.clone(), vec![base.v[ASSET], base.v[INPUT]]].concat()),
+            ("without-count", [to.clone(), vec![base.v[ASSET], base.v[INPUT]]].concat()),
+            ("output-instead-of-input", [to.clone(), tcl.clone(), vec![base.v[ASSET], base.v[OUT1]]].concat()),
+        ];
+        for (l, pre) in lvars {
+            // fold from a different leaf hash: reuse `fold` by temporarily computing with a patched copy
+            let mut cur = h(&pre);
+            let depth = base.v[DEPTH] as usize;
+            for lvl in 0..depth {
+                let s = [base.sib(lvl, 0), base.sib(lvl, 1), base.sib(lvl, 2)];
+                let ch: [[u64; 4]; 4] = match base.v[POS + lvl] {
+                    0 => [cur, s[0], s[1], s[2]],
+                    1 => [s[0], cur, s[1], s[2]],
+                    2 => [s[0], s[1], cur, s[2]],
+                    _ => [s[0], s[1], s[2], cur],
+                };
+                cur = h(&ch.concat());
+            }
+            let mut a = base.clone();
+            a.set4(ROOT, cur);
+            a.recompute(&[ROOT, ACC, TO, NULL]);
+            push(format!("leafhash-{l}"), a);
+        }
+        // insertion recipes: position interpreted shifted / from the other end
+        if base.v[DEPTH] > 0 {
+            for (l, fpos) in [("pos+1", 1u64), ("3-pos", 100)] {
+                let mut b2 = base.clone();
+                let d = base.v[DEPTH] as usize;
+                for lvl in 0..d {
+                    b2.v[POS + lvl] = if fpos == 100 { 3 - base.v[POS + lvl] } else { (base.v[POS + lvl] + 1) % 4 };
+                }
+                let r = b2.fold();
+                let mut a = base.clone();
+                a.set4(ROOT, r);
+                a.recompute(&[ROOT, ACC, TO, NULL]);
+                push(format!("insertion-{l}"), a);
+            }
+        }
+    }
+
     // ---- run all honest-hint cases ----
     let verdicts: Vec<bool> = all_cases
         .par_iter()
@@ -348,8 +476,7 @@ pub fn explore(ctx: &LeafCtx, tier: &str, reps: &[&Report; 5]) {
             || fd.off == BH;
         if thorough {
             dev_targets.push(ci);
-        } else if numeric && (c.base == 1 || c.base == 3 || c.base == 5) && c.edits[0].1 < 7 {
-            // quick: bases R2, Rmax, D
+        } else if numeric {
             if fd.kind == Kind::Pos && !(fd.name == "pos[0]" || fd.name == "pos[1]" || fd.name == "pos[2]") {
                 continue;
             }
